@@ -1,4 +1,5 @@
 import SspModel.Lemmas.Pk
+import SspModel.Lemmas.Bridge.Pk
 /-!
 # C12 — the power-law moment integral is exact, positive and additive
 
@@ -11,6 +12,10 @@ open Model Scalar
 
 /-- C12 over exact reals, as stated: for all slopes `a`, moments `k` and `0 < m1 < m2` -/
 structure Statement : Prop where
+  /-- the expressions in `masses.Pk`'s source now (both branches and the branch condition) are the model's `PkCore` -/
+  source : ∀ a k m1 m2 : ℝ,
+    (if Generated.pk_mask a k then Generated.pk_log a k m1 m2 else Generated.pk_main a k m1 m2) = PkCore a k m1 m2
+  source_resolution : (Generated.resolution : ℝ) = Model.resolution
   /-- the helper returns ∫ m^(a+k-1) over [m1, m2] (log form when a+k = 0) -/
   exact : ∀ a k m1 m2 : ℝ, 0 < m1 → m1 < m2 →
     PkCore a k m1 m2 = ∫ x in m1..m2, x ^ (a + k - 1)
@@ -86,6 +91,8 @@ theorem PkList_getElem? (as m1s m2s : List ℝ) (k : ℝ) :
 
 /-- **C12 (partial: exact-real part)**. Missing from the full property: the 1e-9 float accuracy clause. -/
 theorem C12_partial : Statement where
+  source := Bridge.gen_pk
+  source_resolution := Bridge.gen_resolution
   exact := fun a k m1 m2 h1 h2 => PkCore_eq_integral a k m1 m2 h1 h2.le
   logForm := logForm
   pos := PkCore_pos
